@@ -104,6 +104,7 @@ def run(ctx: Ctx) -> None:
     rule_init_zero(ctx)
     rule_reset_zero(ctx)
     shapes.rule_kron_layout(ctx)
+    shapes.rule_bit_order(ctx, ["graphiq/backends/density_matrix/functions.py", "graphiq/backends/density_matrix/state.py", "graphiq/backends/density_matrix/compiler.py"])
     tableau.rule_measure_rowset(ctx)
     tableau.rule_phase_combine(ctx)
     gatesum.rule_derived_gates(ctx)
@@ -264,16 +265,26 @@ def rule_determinism_map(ctx: Ctx) -> None:
             if not brs:
                 continue
             found = True
+            expanded = []
             for b in ch:
                 if b.test is None:
-                    lit = "else"
-                elif b.parsed and b.subject == det and len(b.literals) == 1:
-                    lit = next(iter(b.literals))
+                    expanded.append((b, "else"))
+                elif b.parsed and b.subject == det and len(b.literals) >= 1:
+                    for lit_ in sorted(b.literals, key=repr):
+                        expanded.append((b, lit_))
                 else:
                     raise AnalysisError(f"{rel}::{q}: determinism chain branch not recognised: {short(b.test)}")
+            for b, lit in expanded:
                 if b.raises:
                     continue
-                outs = _outcome_constants(b.body)
+                outs = _outcome_constants(b.body, det, lit)
+                stray = sorted(v for v in outs["values"] if v not in (0, 1))
+                if stray and lit != "probabilistic":
+                    ctx.fail("sibling.determinism-map", m, b.node,
+                             f"{q}: with determinism setting {lit!r} the outcome can become {stray}: an outcome is 0 or 1 (a negative value still "
+                             f"indexes a projector, but every `outcome == 1` correction downstream is then skipped)",
+                             construct=f"{q}: {lit!r} -> outcome in {sorted(outs['values'], key=repr)}", func=q)
+                    continue
                 if lit == "probabilistic":
                     rnd = any((call_name(c) or "").split(".")[-2:-1] == ["random"] for st in b.body for c in calls_in(st))
                     if rnd and not outs["const_only"]:
@@ -296,18 +307,63 @@ def rule_determinism_map(ctx: Ctx) -> None:
             raise AnalysisError(f"{rel}::{q}: no chain on the determinism setting found")
 
 
-def _outcome_constants(body: List[ast.stmt]):
-    """Constants assigned to a name containing 'outcome' in a branch; 'first' = the value on the preferred
-    (first / unconditional) path."""
-    vals = []
+def _outcome_constants(body: List[ast.stmt], det: str = "", lit=None):
+    """Values a name containing 'outcome' can take in a branch, with the determinism parameter bound to the branch's literal
+    (so `outcome = int(det)`, `outcome = 1 - outcome` fold); 'first' = the value on the preferred (first / unconditional) path."""
+    vals: List = []
     const_only = True
-    for st in body:
-        for n in ast.walk(st):
-            if isinstance(n, ast.Assign) and any(isinstance(t, ast.Name) and "outcome" in t.id for t in n.targets):
-                if isinstance(n.value, ast.Constant):
-                    vals.append(n.value.value)
-                else:
-                    const_only = False
+
+    def ev(e, cur):
+        if isinstance(e, ast.Constant):
+            return e.value
+        if isinstance(e, ast.Name):
+            if e.id == det and isinstance(lit, int):
+                return lit
+            if "outcome" in e.id and cur is not None:
+                return cur
+            raise ValueError
+        if isinstance(e, ast.Call) and isinstance(e.func, ast.Name) and e.func.id in ("int", "bool") and len(e.args) == 1:
+            return int(ev(e.args[0], cur))
+        if isinstance(e, ast.UnaryOp) and isinstance(e.op, ast.Not):
+            return int(not ev(e.operand, cur))
+        if isinstance(e, ast.UnaryOp) and isinstance(e.op, ast.USub):
+            return -ev(e.operand, cur)
+        if isinstance(e, ast.BinOp):
+            a, b_ = ev(e.left, cur), ev(e.right, cur)
+            for k, f in ((ast.Add, lambda: a + b_), (ast.Sub, lambda: a - b_), (ast.BitXor, lambda: a ^ b_), (ast.Mod, lambda: a % b_), (ast.Mult, lambda: a * b_)):
+                if isinstance(e.op, k):
+                    return f()
+        raise ValueError
+
+    def block(stmts, cur_set):
+        nonlocal const_only
+        for st in stmts:
+            if isinstance(st, ast.If):
+                a = block(st.body, set(cur_set))
+                b_ = block(st.orelse, set(cur_set)) if st.orelse else set(cur_set)
+                cur_set = a | b_
+                continue
+            if isinstance(st, ast.Assign) and any(isinstance(t, ast.Name) and "outcome" in t.id for t in st.targets):
+                new = set()
+                for cur in (cur_set or {None}):
+                    try:
+                        v = ev(st.value, cur)
+                        new.add(v)
+                        vals.append(v)
+                    except (ValueError, TypeError):
+                        const_only = False
+                if new:
+                    cur_set = new
+                continue
+            for n in ast.walk(st):
+                if isinstance(n, ast.Assign) and any(isinstance(t, ast.Name) and "outcome" in t.id for t in n.targets):
+                    try:
+                        vals.append(ev(n.value, None))
+                    except (ValueError, TypeError):
+                        const_only = False
+        return cur_set
+
+    block(body, set())
     return {"values": set(vals), "first": vals[0] if vals else None, "const_only": const_only and bool(vals)}
 
 
@@ -604,6 +660,8 @@ def _swap_first(a: str, b: str):
 
 
 KNOCKOUTS = [
+    Knockout("dm-basis-bit-lsb-first", "graphiq/backends/density_matrix/functions.py", sub_once("def projectors_zbasis(n_qubits, measure_register):", "def _both_one(n_qubits, control_qubit, target_qubit):\n    basis_states = np.arange(2**n_qubits)\n    return (basis_states >> control_qubit) & (basis_states >> target_qubit) & 1\n\n\ndef projectors_zbasis(n_qubits, measure_register):"), "index.bit-order", "_both_one"),
+    Knockout("dm-forced-outcome-fallback-minus-one", "graphiq/backends/density_matrix/state.py", sub_once("                if not np.isclose(probs[0], 0.0):\n                    outcome = 0\n                else:\n                    outcome = 1\n", "                outcome = int(measurement_determinism)\n                if np.isclose(probs[outcome], 0.0):\n                    outcome = outcome - 1\n"), "sibling.determinism-map", "outcome can become"),
     Knockout("prim-cnot-x-direction", "graphiq/backends/stabilizer/functions/transformation.py", sub_once("    tableau.table = add_columns(tableau.table, ctrl_qubit, target_qubit)\n", "    tableau.table = add_columns(tableau.table, target_qubit, ctrl_qubit)\n"), "prim.formula", "cnot_gate"),
     Knockout("hook-args-swapped", "graphiq/backends/compiler_base.py", sub_nth("                self.compile_one_gate(\n                    state, op, circuit.n_quantum, q_index, classical_registers\n                )", "                self.compile_one_gate(\n                    op, state, circuit.n_quantum, q_index, classical_registers\n                )", 0), "arg.names-swapped", "swapped"),
     Knockout("forced-outcome-exact-threshold", "graphiq/backends/density_matrix/state.py", sub_once("                if not np.isclose(probs[1], 0.0):", "                if probs[1] > 0:"), "num.prob-threshold", "exact threshold", on_fixed_only=True),
